@@ -22,7 +22,10 @@ func byteMutate(r *rand.Rand, t string) (string, []string) {
 		if len(b) > 0 {
 			pos = r.Intn(len(b) + 1)
 		}
-		switch r.Intn(9) {
+		switch r.Intn(10) {
+		case 9: // lexer errors up to and past the limit, then one of every lexer construct
+			b = []byte(errorPileMutate(r, string(b)))
+			ops = append(ops, "error-pile")
 		case 0: // flip a bit
 			if len(b) > 0 {
 				p := r.Intn(len(b))
